@@ -316,6 +316,14 @@ func (x *Executor) Run(r Row) (*Event, error) {
 
 	ev := &Event{Ev: "Call", ID: r.ID, Row: r, Listed: []string{}, ListedAfter: []string{}, Audits: []Audit{}, Writes: []Write{},
 		Foreign: []string{}, Effect: "none", ArgsJSON: asciiJSON(argsJSON), ArgsSha: Sha(argsJSON), DBBefore: x.DBHash}
+	wireName, err := WireName(r.Tool, r.Spell)
+	if err != nil {
+		return nil, err
+	}
+	ev.WireName = strings.Trim(strconv.QuoteToASCII(wireName), `"`) // plain ASCII rendering for TLC ("\n", "\u00a0" spelled out)
+	if ev.Row.Spell == "" {
+		ev.Row.Spell = "exact"
+	}
 	ev.Row.ArgsTpl = "" // the concrete arguments are in args_json
 	ev.Layer = "L1"
 	if x.Binary != "" {
@@ -464,7 +472,7 @@ func (x *Executor) Run(r Row) (*Event, error) {
 	auditBefore := audit.String()
 	x.admin.Reset()
 	t0 := time.Now()
-	params := map[string]any{"name": r.Tool, "arguments": args}
+	params := map[string]any{"name": wireName, "arguments": args}
 	switch ev.Real.Wire {
 	case "absent":
 		delete(params, "arguments")
